@@ -6,8 +6,15 @@ import (
 	"fmt"
 	"hash/fnv"
 	"sort"
+	"sync/atomic"
 	"time"
 )
+
+var beats atomic.Uint64
+
+// Heartbeat tells the real-time watchdog that the simulation is making progress. It is a counter,
+// not a timestamp: inside a synctest bubble time.Now is the fake clock.
+func Heartbeat() { beats.Add(1) }
 
 // Violation is one oracle failure.
 type Violation struct {
@@ -39,11 +46,14 @@ func NewCtx(src *Source) *Ctx {
 	return &Ctx{Src: src, Faults: map[string]int{}, Probes: map[string]int{}, States: map[uint64]struct{}{}}
 }
 
-func (c *Ctx) Logf(f string, a ...any) { c.Log = append(c.Log, fmt.Sprintf(f, a...)) }
-func (c *Ctx) Event(kind string)       { c.Events = append(c.Events, kind) }
-func (c *Ctx) Fault(kind string)       { c.Faults[kind]++; c.nontriv = true }
-func (c *Ctx) Probe(name string)       { c.Probes[name]++ }
-func (c *Ctx) MarkNonTrivial()         { c.nontriv = true }
+func (c *Ctx) Logf(f string, a ...any) {
+	Heartbeat()
+	c.Log = append(c.Log, fmt.Sprintf(f, a...))
+}
+func (c *Ctx) Event(kind string) { c.Events = append(c.Events, kind) }
+func (c *Ctx) Fault(kind string) { c.Faults[kind]++; c.nontriv = true }
+func (c *Ctx) Probe(name string) { c.Probes[name]++ }
+func (c *Ctx) MarkNonTrivial()   { c.nontriv = true }
 func (c *Ctx) State(parts ...any) {
 	h := fnv.New64a()
 	fmt.Fprint(h, parts...)
